@@ -16,6 +16,10 @@ Next ==
             /\ Chk(TokenDigits(e.digest, e.digits) = e.token, "token", TokenDigits(e.digest, e.digits))
             /\ Chk(LEq(ExpireL(e.t, e.p), e.expire), "expire_time", ExpireL(e.t, e.p))
             /\ Chk(LEq(StartL(e.t, e.p), e.start), "start_time", StartL(e.t, e.p))
+       ELSE IF e.op = "valid" THEN
+            \* the validity interval of a token is half open: [start, start + period); off = now - start
+            /\ Chk(e.valid = (e.off >= 0 /\ e.off < e.p), "valid", e.off >= 0 /\ e.off < e.p)
+            /\ Chk(e.remaining = (IF e.off < e.p THEN e.p - e.off ELSE 0), "remaining", IF e.off < e.p THEN e.p - e.off ELSE 0)
        ELSE IF e.op = "key" THEN
             Chk(KeyFromText(e.fmt, e.text) = e.res, "key", KeyFromText(e.fmt, e.text))
        ELSE Bad("unknown op", <<>>)
